@@ -12,6 +12,7 @@ func Drivers() map[string]Driver {
 	return map[string]Driver{
 		"xlist": DriveXList,
 		"deque": DriveDeque,
+		"tree":  DriveTree,
 		"heap":  DriveHeap,
 		"pq":    DrivePQ,
 	}
